@@ -285,7 +285,12 @@ func genModelBundle(rng *report.Rand, k int) model.Bundle {
 		o.CRCMode = 1
 		o.SmallOnly = true
 	}
-	return model.GenBundle(rng, o)
+	for {
+		m := model.GenBundle(rng, o)
+		if enc, _ := m.Encode(nil); len(enc) <= 60000 { // inputs are limited to 64 KiB
+			return m
+		}
+	}
 }
 
 // bundleDoc encodes a model bundle and provides consistent re-encoding for heads nested in block contents.
